@@ -28,10 +28,12 @@ BUDGET = {
 }
 HOSTILE = ["..", ".", "", "a/../../b", "../x", "ABS", "ABS/sub", "../../..", "a/..", "./..", "..\\..", "x/", "/"]
 BENIGN = ["a", "b", "dir", "evil.txt", "f.bin"]
+# siblings of the destination whose names merely *start with* the destination's name (string-prefix containment tests accept them)
+SIBLINGS = ["dest2", "dest.bak", "dest-old"]
 
 
 def comp():
-    return st.one_of(st.sampled_from(HOSTILE), st.sampled_from(HOSTILE), st.sampled_from(BENIGN))
+    return st.one_of(st.sampled_from(HOSTILE), st.sampled_from(HOSTILE), st.sampled_from(BENIGN), st.sampled_from(SIBLINGS))
 
 
 def strategy(tier):
